@@ -79,7 +79,7 @@ type Sim struct {
 	MaxFrame     int
 	HoldTime     time.Duration // how long a data frame stays "outstanding"
 	RefuseReg    bool
-	ConnectReply string // "ok", "refuse", "precondition"
+	ConnectReply string       // "ok", "refuse", "precondition"
 	ShortReply   map[byte]int // reply kind -> its data field is cut to this many bytes (a malformed reply to a request)
 
 	Received  []Frame // every frame the TNC received, in order
